@@ -9,6 +9,8 @@ package run
 import (
 	"fmt"
 	"net"
+	"os"
+	"path/filepath"
 	"runtime"
 	"strconv"
 	"strings"
@@ -81,9 +83,18 @@ func c07sRun(t *testing.T, c c07sCase) (kind, what string) {
 	conf.Options.HttpProfile = 9400
 	conf.Options.Id = "verif"
 	conf.Options.ExtraInfo = false
+	// sock.file_name / sock.file_size (a file-backed buffer between the source link and the parser)
+	// are configured for every second scenario; every source link needs a buffer of its own
+	conf.Options.SockFileName, conf.Options.SockFileSize = "", 0
+	if (c.Sources+c.FullPar+c.TailSplit)%2 == 0 {
+		conf.Options.SockFileName = filepath.Join(os.Getenv("VERIF_SCRATCH"), fmt.Sprintf("c07s-sock-%d", os.Getpid()))
+		conf.Options.SockFileSize = 4 << 20
+		defer os.Remove(conf.Options.SockFileName)
+	}
 	defer func() {
 		conf.Options.SourceAddressList, conf.Options.TargetAddressList = nil, nil
 		conf.Options.ResumeFromBreakPoint = false
+		conf.Options.SockFileName, conf.Options.SockFileSize = "", 0
 	}()
 	var mu sync.Mutex
 	abort := false
